@@ -28,8 +28,10 @@ TRUSTED = ["correspondence harness props/C04.py + props/_c04_kernel.py + pv/ (fa
            "_pslinux.pids/pid_exists, tied to the code by this run only",
            "formats of the procfs root listing and of /proc/<n>/status (Tgid line) in coq/C04/Spec.v"]
 ASSUMPTIONS = ["every psutil call is atomic with respect to kernel events; in the theorems generators interleave at yield points (two "
-               "generator objects advanced alternately); the line-level window of two threads inside the prologue of process_iter() "
-               "(around _pids_reused.pop()) is sampled with a deterministic settrace scheduler, not proved",
+               "generator objects advanced alternately) and the commit 'finally: _pmap = pmap' is ONE step of the machine (theorem "
+               "C04_cache_change_is_commit): that is the modelled granularity; the line-level windows of two threads inside the "
+               "prologue (around _pids_reused.pop()) and inside the epilogue (one thread committing, the other entering) are "
+               "enumerated with a deterministic settrace scheduler, not proved",
                "start ticks below 2^53 (Process._ident holds ticks/CLK_TCK as a float)",
                "the model uses the cache key as the pid of a cached object (entries are only made by pmap[proc.pid] = proc)",
                "CPython semantics of sorted/set/dict/generators/bytes.isdigit/int are modelled, not verified",
@@ -37,7 +39,9 @@ ASSUMPTIONS = ["every psutil call is atomic with respect to kernel events; in th
                "ppid(); histories where the iteration order of the name set decides whether that call happened are skipped "
                "(OutOfModel); attribute universe of the runs: pid,name,ppid,status,num_threads,cpu_times,cpu_num (attrs=[] runs "
                "with psutil._as_dict_attrnames narrowed to these minus ppid)"]
-EXHAUSTIVE = {"quick": "status faults {ENOENT,ESRCH,EACCES,EPERM,EIO,EIO-read,no Tgid} x {PID,zombie,2 thread ids,absent,0,-1,2^31-1,2^31,"
+EXHAUSTIVE = {"quick": "commit window: thread 0 pre-empted after each of its first 0..34 lines (a warm iteration over 3 PIDs has 28: "
+                        "prologue, loop, finally) with thread 1 running to completion, and for the last 13 points thread 1 running "
+                        "1..6 lines; status faults {ENOENT,ESRCH,EACCES,EPERM,EIO,EIO-read,no Tgid} x {PID,zombie,2 thread ids,absent,0,-1,2^31-1,2^31,"
                         "10^30}; two-thread schedules 0^i 1^j for i,j < 13; pid_exists over {-1,0..9,2^15,2^22,2^31-1,2^31,2^31+1,2^32,2^63-1,2^63,2^64,10^30} x {listed,thread id,absent}",
               "thorough": "all 11^1..11^4 event strings over {spawn 1 (2 start values), reap 1, reap 2, new generator, next on generator "
                           "0/1, close 0, cache_clear, is_running on yield 0/1} after a warm-cache prefix; two-thread schedules 0^i 1^j "
@@ -308,6 +312,18 @@ def gen_cases(rng, tier):
             cases.append({"kind": "sched", "cls": "sched-2threads", "schedule": [0] * i + [1] * j})
     for _ in range({"quick": 30, "thorough": 300, "search": 30}[tier]):
         cases.append({"kind": "sched", "cls": "sched-2threads-random", "schedule": [rng.randint(0, 1) for _ in range(40)]})
+    # thread 0 finishes a warm iteration (epilogue / finally: the commit of the cache), thread 1 enters process_iter():
+    # every pre-emption point of thread 0 (a warm iteration over 3 PIDs is 28 line events; 0..34 covers prologue, loop and
+    # epilogue with margin), thread 1 then running to completion, or only j lines (up to / past its cache copy) before
+    # thread 0 finishes
+    for i in range(0, 35):
+        cases.append({"kind": "sched_commit", "cls": "sched-commit", "schedule": [0] * i + [1] * 60})
+    for i in range(22, 35):
+        for j in range(1, 7):
+            cases.append({"kind": "sched_commit", "cls": "sched-commit", "schedule": [0] * i + [1] * j})
+    for _ in range({"quick": 20, "thorough": 400, "search": 20}[tier]):
+        cases.append({"kind": "sched_commit", "cls": "sched-commit-random",
+                      "schedule": [rng.randint(0, 1) for _ in range(70)]})
     for _ in range(n_txt):
         k = rng.randint(0, 8)
         names = [rng.choice(LIST_NAMES) for _ in range(k)]
@@ -378,7 +394,7 @@ def coq_term(case):
     k = case["kind"]
     if k == "hist":
         return "run_hist %s %s" % (G.lst([G.z(c) for c in valid_codes(case)]), G.lst([_ev_term(e) for e in case["events"]]))
-    if k == "sched":
+    if k in ("sched", "sched_commit"):
         return "JL []"
     if k == "listing":
         return "run_listing %s" % G.lst(["(%s %s)" % ("DPid" if _is_pid_name(n) else "DOther", G.by(n)) for n in case["names"]])
@@ -421,7 +437,7 @@ def coq_struct(case, raw):
         oom = any(isinstance(e, list) and isinstance(e[0], dict) and e[0].get("t") == "Oom" for e in evs)
         return {"model": model, "spec": None, "spec_events": spec, "marked_at_entry": bool(flag_a),
                 "stale_skip": bool(flag_b), "stale_reyield": bool(flag_c), "oom": oom}
-    if k == "sched":
+    if k in ("sched", "sched_commit"):
         return {"model": None, "spec": None}
     if k == "listing":
         spec = raw[2]
@@ -602,6 +618,22 @@ def judge(case, coq, impl):
             l = r[1]
             if l != sorted(set(l)) or not set(l) <= {1, 2, 3} or not {1, 3} <= set(l):
                 return Verdict("violation", "thread %d: process_iter() yielded %r for the table {1,2,3}" % (tid, l))
+        return Verdict("ok")
+    if case["kind"] == "sched_commit":
+        # identity across threads (C04_same_object_next_iteration at line granularity): PIDs 1,2,3 were cached by a completed
+        # iteration, stay listed with the same start ticks, nobody calls cache_clear() or is_running(): whatever the
+        # interleaving of one thread finishing an iteration and another entering one, both are served the very same objects
+        for tid, r in enumerate(impl[:2]):
+            if r[0] != "ok":
+                return Verdict("violation", "thread %d: process_iter() raised %s" % (tid, r[1:]))
+            if [x[0] for x in r[1]] != [1, 2, 3]:
+                return Verdict("violation", "thread %d: process_iter() yielded PIDs %r for the table {1,2,3}" % (tid, [x[0] for x in r[1]]))
+            for pid, same in r[1]:
+                if not same:
+                    return Verdict("violation", "thread %d was served a NEW object for PID %d, which was cached by an earlier "
+                                                "iteration and stayed listed (cache seen empty or partial during the commit)" % (tid, pid))
+        if impl[2] is not True:
+            return Verdict("violation", "after both threads finished the cache does not hold the original objects")
         return Verdict("ok")
     if case["kind"] != "hist":
         return default_judge(None, case, coq, impl)
@@ -879,8 +911,31 @@ def _run_sched(case, env, psutil):
         _reset(psutil)
 
 
+def _run_sched_commit(case, env, psutil):
+    from pv import fakeproc
+    from props._c04_sched import run_two
+    root = os.path.join(env["work"], "proc")
+    fp = fakeproc.FakeProc(root)
+    fakeproc.attach(psutil, root)
+    _reset(psutil)
+    try:
+        with _Patches(root, hidden=set()):
+            for p in (1, 2, 3):
+                fp.add(p, starttime=100)
+            warm = {o.pid: o for o in psutil.process_iter()}
+            if sorted(warm) != [1, 2, 3]:
+                return [["exc", "WarmupMismatch", repr(sorted(warm))]] * 2 + [False]
+            res = run_two(lambda tid: [[p.pid, p is warm.get(p.pid)] for p in psutil.process_iter()], case["schedule"])
+            final = all(psutil._pmap.get(p) is warm[p] for p in (1, 2, 3)) and sorted(psutil._pmap) == [1, 2, 3]
+        return [list(r) for r in res] + [final]
+    finally:
+        _reset(psutil)
+
+
 def impl_run(case, coq, env):
     import psutil
+    if case["kind"] == "sched_commit":
+        return _run_sched_commit(case, env, psutil)
     if case["kind"] == "sched":
         return _run_sched(case, env, psutil)
     if case["kind"] == "hist":
